@@ -274,9 +274,16 @@ func c13Tombstones(p *an.Prog, r *an.R, fd *an.DeclInfo, ft, corf *types.Var) {
 		se, ok := ast.Unparen(e).(*ast.SelectorExpr)
 		return ok && info.Selections[se] != nil && info.Selections[se].Obj() == ft
 	}
-	isCorf := func(e ast.Expr) bool {
-		se, ok := ast.Unparen(e).(*ast.SelectorExpr)
-		return ok && info.Selections[se] != nil && info.Selections[se].Obj() == corf
+	var isCorf func(e ast.Expr) bool
+	isCorf = func(e ast.Expr) bool {
+		if se, ok := ast.Unparen(e).(*ast.SelectorExpr); ok {
+			return info.Selections[se] != nil && info.Selections[se].Obj() == corf
+		}
+		// a single-definition local holding the list
+		if dd := defOf(info, fd.Decl.Body, e); dd != nil && ast.Unparen(dd) != ast.Unparen(e) {
+			return isCorf(dd)
+		}
+		return false
 	}
 	inline := 0
 	ast.Inspect(fd.Decl.Body, func(n ast.Node) bool {
@@ -288,6 +295,57 @@ func c13Tombstones(p *an.Prog, r *an.R, fd *an.DeclInfo, ft, corf *types.Var) {
 			if as, ok := m.(*ast.AssignStmt); ok {
 				if ix, ok := ast.Unparen(as.Lhs[0]).(*ast.IndexExpr); ok && isFT(ix.X) && an.UsesObj(info, ix.Index, info.ObjectOf(rs.Value.(*ast.Ident))) {
 					inline++
+				}
+			}
+			return true
+		})
+		return true
+	})
+	// index-loop form: for i := 0; i < len(L); i++ { X.FileTombstones[L[i]] = ... }
+	ast.Inspect(fd.Decl.Body, func(n ast.Node) bool {
+		fs, ok := n.(*ast.ForStmt)
+		if !ok || fs.Cond == nil || fs.Init == nil || fs.Post == nil {
+			return true
+		}
+		be, ok := ast.Unparen(fs.Cond).(*ast.BinaryExpr)
+		if !ok || be.Op != token.LSS {
+			return true
+		}
+		lc, ok := ast.Unparen(be.Y).(*ast.CallExpr)
+		if !ok || !an.IsBuiltin(info, lc, "len") || !isCorf(lc.Args[0]) {
+			return true
+		}
+		iv, ok := ast.Unparen(be.X).(*ast.Ident)
+		if !ok {
+			return true
+		}
+		init, ok := fs.Init.(*ast.AssignStmt)
+		if !ok || len(init.Rhs) != 1 || !isIdentOf(info, init.Lhs[0], info.ObjectOf(iv)) {
+			return true
+		}
+		if tv := info.Types[init.Rhs[0]]; tv.Value == nil || tv.Value.ExactString() != "0" {
+			return true
+		}
+		if post, ok := fs.Post.(*ast.IncDecStmt); !ok || post.Tok != token.INC || !isIdentOf(info, post.X, info.ObjectOf(iv)) {
+			return true
+		}
+		exits := false
+		ast.Inspect(fs.Body, func(m ast.Node) bool {
+			switch m.(type) {
+			case *ast.BranchStmt, *ast.ReturnStmt:
+				exits = true
+			}
+			return true
+		})
+		if exits {
+			return true
+		}
+		ast.Inspect(fs.Body, func(m ast.Node) bool {
+			if as, ok := m.(*ast.AssignStmt); ok {
+				if ix, ok := ast.Unparen(as.Lhs[0]).(*ast.IndexExpr); ok && isFT(ix.X) {
+					if el, ok := ast.Unparen(ix.Index).(*ast.IndexExpr); ok && isCorf(el.X) && isIdentOf(info, el.Index, info.ObjectOf(iv)) {
+						inline++
+					}
 				}
 			}
 			return true
